@@ -22,7 +22,8 @@ const CHK_LIMIT: usize = 48;
 /// (must equal `stdLimit` in Drv/C18.lean)
 const STD_LIMIT: usize = 4000;
 /// recursion depth of the real DFS is the length of the longest white path; keep chains well below
-/// what an 8 MiB stack takes (measured: > 60 000 frames fit) — a stack overflow is outside the model
+/// what an 8 MiB stack takes (measured with the release build: a one-way chain of 36 091 vertices passes, one
+/// of at most 55 000 vertices aborts the process with a stack overflow) — stack depth is outside the model
 const MAX_CHAIN_QUICK: usize = 1500;
 const MAX_CHAIN_THOROUGH: usize = 4000;
 
